@@ -26,7 +26,7 @@ theorem run_erase (p1 p2 errText : Str) : ∀ (prog : Prog) (left : Str) (segs :
       cases c <;> rfl
     · simpa [run, RunOut.cons] using h2
     · simpa [run, RunOut.cons] using h3
-  | expect w re pw k ih =>
+  | expect w re pw ok k ih =>
     intro left segs
     cases segs with
     | nil => exact ⟨rfl, rfl, rfl⟩
@@ -35,10 +35,13 @@ theorem run_erase (p1 p2 errText : Str) : ∀ (prog : Prog) (left : Str) (segs :
       | full s =>
         obtain ⟨h1, h2, h3⟩ := ih (crlf2lf (if pw then cutPassword (left ++ s) else (left ++ s, [])).1)
           (if pw then cutPassword (left ++ s) else (left ++ s, [])).2 r
-        refine ⟨?_, ?_, ?_⟩
-        · simp only [run, map_erase_cons, h1]
-        · simpa [run, RunOut.cons] using h2
-        · simpa [run, RunOut.cons] using h3
+        by_cases hok : ok (crlf2lf (if pw then cutPassword (left ++ s) else (left ++ s, [])).1) = true
+        · refine ⟨?_, ?_, ?_⟩
+          · simp only [run, hok, if_true, map_erase_cons, h1]
+          · simpa [run, hok, RunOut.cons] using h2
+          · simpa [run, hok, RunOut.cons] using h3
+        · simp only [run, hok]
+          exact ⟨rfl, rfl, rfl⟩
       | part s => exact ⟨rfl, rfl, rfl⟩
   | setLog l k ih =>
     intro left segs
@@ -59,5 +62,246 @@ theorem sessionOps_erase (prog : Prog) (p1 p2 errText : Str) (segs : List Seg) (
   split
   · simp only [List.map_append, h1]
   · exact h1
+
+/-! ## the password is only ever sent in answer to a password prompt -/
+
+/-- `Guarded b prog`: in every execution of `prog` (for every device) each `send pass` follows
+immediately an expect whose chunk ends in `password:`; `b` says whether that is the case right now. -/
+inductive Guarded : Bool → Prog → Prop where
+  | tail (b : Bool) : Guarded b .tail
+  | abort (b : Bool) (m : Str) : Guarded b (.abort m)
+  | sendLit (b : Bool) (s : Str) (k : Prog) : Guarded false k → Guarded b (.send (.lit s) k)
+  | sendPass (k : Prog) : Guarded false k → Guarded true (.send .pass k)
+  | expect (b : Bool) (w re : Str) (pw : Bool) (ok : Str → Bool) (k : Str → Prog) :
+      (∀ out, ok out = true → Guarded (isPwPrompt out) (k out)) → Guarded b (.expect w re pw ok k)
+  | setLog (b : Bool) (l : Option Log) (k : Prog) : Guarded b k → Guarded b (.setLog l k)
+
+theorem Guarded.mono {b : Bool} {p : Prog} (h : Guarded b p) : b = false → ∀ b', Guarded b' p := by
+  induction h with
+  | tail b => intro _ b'; exact .tail b'
+  | abort b m => intro _ b'; exact .abort b' m
+  | sendLit b s k hk _ => intro _ b'; exact .sendLit b' s k hk
+  | sendPass k _ _ => intro hb; cases hb
+  | expect b w re pw ok k hk _ => intro _ b'; exact .expect b' w re pw ok k hk
+  | setLog b l k _ ih => intro hb b'; exact .setLog b' l k (ih hb b')
+
+theorem Guarded.weaken {p : Prog} (h : Guarded false p) (b : Bool) : Guarded b p := h.mono rfl b
+
+theorem guarded_issue_lit (b : Bool) (s re : Str) (pw : Bool) (ok : Str → Bool) (k : Str → Prog)
+    (h : ∀ out, ok out = true → Guarded (isPwPrompt out) (k out)) : Guarded b (issue (.lit s) re k pw ok) :=
+  .sendLit b s _ (.expect false _ _ _ _ _ h)
+
+theorem guarded_issue_pass (re : Str) (pw : Bool) (ok : Str → Bool) (k : Str → Prog)
+    (h : ∀ out, ok out = true → Guarded (isPwPrompt out) (k out)) : Guarded true (issue .pass re k pw ok) :=
+  .sendPass _ (.expect false _ _ _ _ _ h)
+
+theorem guarded_sendCmd (b : Bool) (re cmd : Str) (k : Prog) (h : Guarded false k) : Guarded b (sendCmd re cmd k) :=
+  guarded_issue_lit b cmd re false anyOut _ fun out _ => h.weaken _
+
+theorem guarded_getCmd (b : Bool) (re cmd : Str) (k : Str → Prog) (h : ∀ out, Guarded false (k out)) :
+    Guarded b (getCmd re cmd k) := by
+  refine guarded_issue_lit b cmd re false anyOut _ fun seg _ => ?_
+  first | dsimp only | skip
+  split
+  · exact .abort _ _
+  · exact (h _).weaken _
+
+theorem guarded_ciscoPrompt (b : Bool) (k : Str → Prog) (h : ∀ re, Guarded false (k re)) : Guarded b (ciscoPrompt k) :=
+  guarded_issue_lit b [] reHash false anyOut _ fun out _ => (h _).weaken _
+
+theorem guarded_ciscoAuth (k : Str → Prog) (h : ∀ re, Guarded false (k re)) : Guarded true (ciscoAuth k) := by
+  refine guarded_issue_pass _ _ _ _ fun o1 _ => ?_
+  first | dsimp only | skip
+  split
+  · refine guarded_issue_lit _ _ _ _ _ _ fun o2 _ => ?_
+    first | dsimp only | skip
+    split
+    · exact guarded_ciscoPrompt _ k h
+    · split
+      · rename_i hp
+        rw [hp]
+        refine guarded_issue_pass _ _ _ _ fun o3 _ => ?_
+        first | dsimp only | skip
+        split
+        · exact guarded_ciscoPrompt _ k h
+        · exact .abort _ _
+      · exact .abort _ _
+  · split
+    · exact guarded_ciscoPrompt _ k h
+    · exact .abort _ _
+
+theorem guarded_ciscoLogin (k : Str → Prog) (h : ∀ re, Guarded false (k re)) : Guarded false (ciscoLogin k) := by
+  unfold ciscoLogin ciscoLoginWith
+  refine .expect _ _ _ _ _ _ fun o hok => ?_
+  first | dsimp only | skip
+  split
+  · refine guarded_issue_lit _ _ _ _ _ _ fun out hp => ?_
+    rw [hp]
+    exact guarded_ciscoAuth k h
+  · rename_i hq
+    have : isPwPrompt o = true := by
+      simp only [okCiscoLogin, Bool.or_eq_true] at hok
+      rcases hok with h1 | h2
+      · exact h1
+      · exact absurd h2 hq
+    rw [this]
+    exact guarded_ciscoAuth k h
+
+theorem guarded_asaK2 (b : Bool) (host re : Str) : Guarded b (asaK2 host re) := by
+  unfold asaK2
+  refine guarded_getCmd _ _ _ _ fun _ => guarded_getCmd _ _ _ _ fun o => ?_
+  first | dsimp only | skip
+  split
+  · exact .abort _ _
+  · exact .setLog _ _ _ (guarded_getCmd _ _ _ _ fun _ => .tail _)
+
+theorem guarded_asaK1 (b : Bool) (host re : Str) : Guarded b (asaK1 host re) := by
+  unfold asaK1
+  refine guarded_getCmd _ _ _ _ fun o2 => ?_
+  first | dsimp only | skip
+  split
+  · exact guarded_asaK2 _ host re
+  · exact guarded_sendCmd _ _ _ _ (guarded_sendCmd _ _ _ _ (guarded_sendCmd _ _ _ _ (guarded_asaK2 _ host re)))
+
+theorem guarded_asaLoad (host : Str) : Guarded false (asaLoad host) := by
+  unfold asaLoad
+  refine guarded_ciscoLogin _ fun re => guarded_getCmd _ _ _ _ fun o1 => ?_
+  first | dsimp only | skip
+  split
+  · exact guarded_asaK1 _ host re
+  · exact guarded_sendCmd _ _ _ _ (guarded_asaK1 _ host re)
+
+theorem guarded_iosLoad (host : Str) : Guarded false (iosLoad host) := by
+  unfold iosLoad
+  refine guarded_ciscoLogin _ fun re => ?_
+  refine guarded_sendCmd _ _ _ _ (guarded_sendCmd _ _ _ _ (guarded_getCmd _ _ _ _ fun _ => ?_))
+  refine guarded_issue_lit _ _ _ _ _ _ fun o _ => ?_
+  first | dsimp only | skip
+  split
+  · exact .abort _ _
+  · exact .setLog _ _ _ (guarded_getCmd _ _ _ _ fun _ => .tail _)
+
+theorem guarded_linuxRest (b : Bool) (host banner : Str) : Guarded b (linuxRest host banner) := by
+  unfold linuxRest
+  refine guarded_issue_lit _ _ _ _ _ _ fun _ _ => ?_
+  refine guarded_getCmd _ _ _ _ fun _ => guarded_getCmd _ _ _ _ fun _ => guarded_getCmd _ _ _ _ fun o => ?_
+  first | dsimp only | skip
+  split
+  · exact .abort _ _
+  · refine guarded_getCmd _ _ _ _ fun _ => .setLog _ _ _ ?_
+    exact guarded_getCmd _ _ _ _ fun _ => guarded_getCmd _ _ _ _ fun _ => .tail _
+
+theorem guarded_linuxAfterYes (host banner o : Str) (hok : okLinux o = true) :
+    Guarded (isPwPrompt o) (linuxAfterYes host banner o) := by
+  unfold linuxAfterYes
+  split
+  · rename_i hw
+    have : isPwPrompt o = true := by
+      simp only [okLinux, Bool.or_eq_true, Bool.not_eq_true'] at hok
+      rcases hok with h | h
+      · exact h
+      · rw [hw] at h; cases h
+    rw [this]
+    refine guarded_issue_pass _ _ _ _ fun o2 _ => ?_
+    first | dsimp only | skip
+    split
+    · exact .abort _ _
+    · exact guarded_linuxRest _ host banner
+  · exact guarded_linuxRest _ host banner
+
+theorem guarded_linuxLoad (host banner : Str) : Guarded false (linuxLoad host banner) := by
+  unfold linuxLoad
+  refine .expect _ _ _ _ _ _ fun o hok => ?_
+  first | dsimp only | skip
+  split
+  · exact guarded_issue_lit _ _ _ _ _ _ fun o' hok' => guarded_linuxAfterYes host banner o' hok'
+  · exact guarded_linuxAfterYes host banner o hok
+
+/-! ## a device that echoes, but not at its password prompts -/
+
+theorem prefixCI_nl (p a b : Str) (hp : ∀ d ∈ p, lowerEq d '\n' = false) (hne : p ≠ []) :
+    prefixCI p (a ++ '\n' :: b) = prefixCI p a := by
+  induction p generalizing a with
+  | nil => exact absurd rfl hne
+  | cons d ds ih =>
+    cases a with
+    | nil => simp [prefixCI, hp d (by simp)]
+    | cons x xs =>
+      simp only [List.cons_append, prefixCI]
+      cases ds with
+      | nil => simp [prefixCI]
+      | cons d' ds' => rw [ih xs (fun e he => hp e (by simp [he])) (by simp)]
+
+/-- An echoed line ends with a newline: whether the chunk ends in `password:` is decided by the text
+behind the echo. -/
+theorem isPwPrompt_echo (x t : Str) : isPwPrompt (x ++ '\n' :: t) = isPwPrompt t := by
+  unfold isPwPrompt
+  rw [List.reverse_append, List.reverse_cons, List.append_assoc]
+  exact prefixCI_nl _ _ _ (by decide) (by decide)
+
+def headNoEcho : EDev → Prop
+  | [] => True
+  | (_, _, e) :: _ => e = false
+
+theorem runE_erase (p1 p2 : Str) {b : Bool} {prog : Prog} (hg : Guarded b prog) :
+    ∀ (last1 last2 : Str) (dev : EDev), (last1 = last2 ∨ headNoEcho dev) → (b = true → headNoEcho dev) →
+      noEchoAtPasswordPrompt dev = true →
+      (runE p1 prog last1 dev).map Op.erase = (runE p2 prog last2 dev).map Op.erase := by
+  induction hg with
+  | tail b => intros; rfl
+  | abort b m => intros; rfl
+  | sendLit b s k _ ih =>
+    intro last1 last2 dev _ _ hc
+    simp only [runE, Cmd.text, List.map_cons]
+    rw [ih s s dev (Or.inl rfl) (fun h => by cases h) hc]
+  | sendPass k _ ih =>
+    intro last1 last2 dev _ hb hc
+    simp only [runE, Cmd.text, List.map_cons, Op.erase]
+    rw [ih p1 p2 dev (Or.inr (hb rfl)) (fun h => by cases h) hc]
+  | setLog b l k _ ih =>
+    intro last1 last2 dev h1 hb hc
+    simp only [runE, List.map_cons]
+    rw [ih last1 last2 dev h1 hb hc]
+  | expect b w re pw ok k _ ih =>
+    intro last1 last2 dev h1 _ hc
+    cases dev with
+    | nil => rfl
+    | cons d r =>
+      obtain ⟨pre, t, e⟩ := d
+      have hout : (if e then pre ++ last1 ++ ['\n'] else []) ++ t = (if e then pre ++ last2 ++ ['\n'] else []) ++ t := by
+        rcases h1 with h | h
+        · rw [h]
+        · simp only [headNoEcho] at h
+          simp [h]
+      simp only [runE, hout]
+      by_cases hok : ok ((if e then pre ++ last2 ++ ['\n'] else []) ++ t) = true
+      · simp only [hok, if_true, List.map_cons]
+        have hr : noEchoAtPasswordPrompt r = true := by
+          cases r with
+          | nil => rfl
+          | cons d' r' =>
+            obtain ⟨pre', t', e'⟩ := d'
+            simp only [noEchoAtPasswordPrompt, Bool.and_eq_true] at hc
+            exact hc.2
+        have hb' : isPwPrompt ((if e then pre ++ last2 ++ ['\n'] else []) ++ t) = true → headNoEcho r := by
+          intro hp
+          cases r with
+          | nil => trivial
+          | cons d' r' =>
+            obtain ⟨pre', t', e'⟩ := d'
+            simp only [noEchoAtPasswordPrompt, Bool.and_eq_true, Bool.or_eq_true, Bool.not_eq_true'] at hc
+            rcases hc.1 with h | hn
+            · exact h
+            · have ht : isPwPrompt t = true := by
+                cases e with
+                | false => simpa using hp
+                | true =>
+                  have := isPwPrompt_echo (pre ++ last2) t
+                  simp only [if_true, List.append_assoc, List.singleton_append] at hp this
+                  rw [this] at hp; exact hp
+              rw [ht] at hn; cases hn
+        rw [ih _ hok [] [] r (Or.inl rfl) hb' hr]
+      · simp only [hok]
+        rfl
 
 end NA.Mask
